@@ -1,6 +1,6 @@
 (* C09 — property theorems.  Nothing but statements, `exact`, Print Assumptions. *)
 From FwdLib Require Import Bytes.
-From G09 Require Import Tables H2Relay Ledger Check Term Obligations PairBasics PairWin PairMisc SizeProofs Witness.
+From G09 Require Import Tables H2Relay Ledger Check Term Obligations PairBasics PairWin PairMisc SizeProofs SizeTol Witness.
 Open Scope N_scope.
 
 (* The split loop of data() terminates for every payload whenever the peer's
@@ -74,10 +74,21 @@ Theorem T09_frame_size :
 Proof. exact (fun ds es dec enc dr er => frame_size_from_start ds es dec enc dr er ob_settings_validated ob_initial_max_frame_is_rfc ob_headers_priority_len ob_push_promise_meta_len). Qed.
 Print Assumptions T09_frame_size.
 
-(* The stronger statement - within the limit the endpoint has most recently had acknowledged (or still has
-   pending) - used to be false: a DATA frame sized under an older, larger limit and held behind a closed
-   window was released unchanged.  DATA is now split again when it is released (queuedDataFrame.prepare/send),
-   header blocks are chunked at release; the former counterexample satisfies the predicate. *)
+(* The stronger statement: no frame sent to an endpoint exceeds the SETTINGS_MAX_FRAME_SIZE values that
+   endpoint must still be prepared for - the value of its last ACKNOWLEDGED SETTINGS frame and those of its
+   SETTINGS frames whose acknowledgement it has not yet been sent.  It used to be false (a DATA frame sized
+   under an older, larger limit and held behind a closed window was released unchanged; the witness is
+   kept below and now satisfies the predicate): DATA is split again, and header blocks are chunked, when a
+   frame is RELEASED, with the limit in force at that moment (ob_data_resplit_at_release, T10_source_encodes_at_release). *)
+Theorem T09_frame_size_at_emission :
+  forall (dstate estate : Type) dec enc dresize eresize (evs : list event) (d1 : dstate) (e1 : estate) d2 e2 x,
+    data_resplit_at_release = true -> hist_small evs ->
+    sizes_within_tolerated x (snd (H2Relay.run dec enc dresize eresize (pair0 dstate estate d1 e1 d2 e2) evs)) = true.
+Proof. exact (fun ds es dec enc dr er evs d1 e1 d2 e2 x _ => frame_size_at_emission_from_start ds es dec enc dr er ob_settings_validated ob_initial_max_frame_is_rfc ob_headers_priority_len ob_push_promise_meta_len evs d1 e1 d2 e2 x). Qed.
+Print Assumptions T09_frame_size_at_emission.
+Theorem T09_source_resplits_data_at_release : data_resplit_at_release = true.
+Proof. exact ob_data_resplit_at_release. Qed.
+
 Theorem T09_frame_size_at_emission_former_witness :
   hist_wf lowered_while_queued /\ hist_small lowered_while_queued /\
   sizes_within_tolerated Sv (snd (H2Relay.run unit_dec unit_enc unit_res unit_res (pair0 unit unit tt tt tt tt) lowered_while_queued)) = true.
